@@ -26,6 +26,7 @@ class Spec:
         self.ping_timeout = 4.0
         self.rounds = 3
         self.key = None                        # server ticket key (clients then connect with credentials)
+        self.jitter = 0                        # > 0: genuine datagrams are delayed by content-addressed amounts (reordering) and a few are lost
         self.__dict__.update(kw)
 
     def settings(self, version):
@@ -61,6 +62,20 @@ def run(spec, seed, attack=None, flood=None):
     with Sim(seed) as sim:
         sim.install_factories()
         log = sim.net.log
+        if spec.jitter:
+            # the fate of a datagram depends on its content, its sender and how often it has been sent — not on a global index, so
+            # that the reference run and the attacked run treat the genuine traffic alike
+            import zlib
+            seen = {}
+            def fate(tx):
+                if tx.src == ATTACKER or tx.src == out.flood_addr:
+                    return [0.0]
+                k = seen.get((tx.src, tx.data), 0); seen[(tx.src, tx.data)] = k + 1
+                h = zlib.crc32(tx.data + bytes([k & 0xFF]) + tx.src[0].encode() + tx.src[1].to_bytes(2, "little") + seed.to_bytes(8, "little"))
+                if h % 100 < 4 * spec.jitter:
+                    return []
+                return [quant(0.004 + 0.009 * ((h >> 8) % (2 + 3 * spec.jitter)))]
+            sim.net.fate = fate
         # every PRUDPClient object draws the same "random" values: which datagram creates a server-side connection need
         # not be known to replay the server through the model
         class _Const:
